@@ -265,6 +265,11 @@ macro_rules! impl_tb {
                         let mut ops = Vec::new(); // path_at appends: start from an empty vector
                         let r2 = lazy.path_at(e, &mut ops).map(|(s, d)| (s, d as u64));
                         ensure!(r2 == Some((s, d)), "{}: path_at {:?} differs from hit_at {:?}", what, r2, (s, d));
+                        // the fourth lazy door: the same path, operations in reverse order
+                        let mut rops = Vec::new();
+                        let r3 = lazy.path_at_reverse(e, &mut rops).map(|(s, d)| (s, d as u64));
+                        rops.reverse();
+                        ensure!(r3 == Some((s, d)) && rops == ops, "{}: path_at_reverse gives {:?} with operations (reversed back) {:?}; path_at gives {:?} with {:?}", what, r3, rops, (s, d), ops);
                         let h = Hit { start: s, end: e + 1, dist: d, ops };
                         ensure!(d == want_d, "{}: distance {} but the DP value at that end is {}", what, d, want_d);
                         validate_path(&what, c, text, &h, dp)?;
@@ -286,6 +291,9 @@ macro_rules! impl_tb {
                         let mut ops = Vec::new();
                         let r = lazy.path_at(e, &mut ops);
                         ensure!(r.is_none(), "{}: path_at answered {:?} instead of refusing", what, r);
+                        let mut rops = Vec::new();
+                        let r = lazy.path_at_reverse(e, &mut rops);
+                        ensure!(r.is_none(), "{}: path_at_reverse answered {:?} instead of refusing", what, r);
                         let mut aln = Alignment::default();
                         ensure!(!lazy.alignment_at(e, &mut aln), "{}: alignment_at answered instead of refusing", what);
                         st.lazy_unsearched += 1;
